@@ -1438,6 +1438,15 @@ func (f *Frugal) validateScopes(includes map[string]*Frugal) error {
 }
 
 func (f *Frugal) validateScopeTypes(scope *Scope, includes map[string]*Frugal) error {
+	if scope.Prefix != nil {
+		variables := make(map[string]struct{})
+		for _, variable := range scope.Prefix.Variables {
+			if _, ok := variables[variable]; ok {
+				return fmt.Errorf("Duplicate prefix variable %s in scope %s", variable, scope.Name)
+			}
+			variables[variable] = struct{}{}
+		}
+	}
 	for _, op := range scope.Operations {
 		if !f.isValidType(op.Type) {
 			return fmt.Errorf("Invalid operation type %s for %s.%s",
